@@ -143,7 +143,11 @@ func main() {
 		}
 	}
 	if err := b.Build(); err != nil {
-		panic(err)
+		// a compiler killed by the (shared, loaded) machine: try once more before giving up
+		res.Count("driver_build_retried")
+		if err = b.Build(); err != nil {
+			panic(err)
+		}
 	}
 	dropped := map[string]bool{}
 	for _, bu := range b.Items {
@@ -161,7 +165,7 @@ func main() {
 	}
 
 	// definitions + structural tie
-	var defs, shapeLines []string
+	var defs, shapeLines, stripLines []string
 	for _, mi := range infos {
 		if dropped[mi.Key] {
 			continue
@@ -175,7 +179,39 @@ func main() {
 			res.Extra["last_shape_error"] = mi.Def + ": " + mi.ShapeErr
 		}
 		res.Count(fmt.Sprintf("requirements=%d", len(mi.DataReqs)))
+		// request decoder: which payload fields get their prefix stripped
+		if mi.M.Payload != nil {
+			want := expectedStrips(mi)
+			as := make([]string, len(mi.Strips))
+			for i, f := range mi.Strips {
+				as[i] = coqAttr(mi, f)
+			}
+			if mi.StripErr != "" {
+				as = []string{"AKey \"?unparsed\""}
+				res.Count("decoder_not_parsed")
+				res.Extra["last_strip_error"] = mi.Def + ": " + mi.StripErr
+			}
+			stripLines = append(stripLines, fmt.Sprintf("(%d, L_%s, R_%s, %s)", len(stripLines), mi.Def, mi.Def, vh.CoqList(as)))
+			res.Evaluations++
+			res.Count(fmt.Sprintf("header_credentials=%d", len(want)))
+			if len(want) > 1 {
+				g := map[string]bool{}
+				for _, a := range payloadAttrs(mi.M) {
+					if len(headerGroup(mi.M, a)) > 1 {
+						g[wireLoc(mi.M, a)] = true
+					}
+				}
+				if len(g) > 0 {
+					res.Count("methods_with_shared_header")
+				}
+			}
+			if mi.StripErr != "" || !sameStrs(mi.Strips, want) {
+				res.Fail("decoder-strips-wrong-fields", fmt.Sprintf("%s.%s: the generated request decoder removes the scheme prefix from payload fields %v (%s); the header-carried credentials of the method's requirements are %v",
+					mi.S.Name, mi.M.Name, mi.Strips, mi.StripErr, want), map[string]any{"tier": "B", "design": mi.D, "service": mi.S.Name, "method": mi.M.Name, "stripped_fields": mi.Strips, "expected_fields": want})
+			}
+		}
 	}
+	writeLines(filepath.Join(*out, "cases_strip.txt"), stripLines)
 	writeLines(filepath.Join(*out, "defs.v"), defs)
 	writeLines(filepath.Join(*out, "cases_shape.txt"), shapeLines)
 
